@@ -60,7 +60,45 @@ func (e *verif17Env) wbHooks() {
 			dispatch.Verif17ServePiece(c.dispatcher)
 		}
 	}
+	// remember the result channel each Download caller waits on (the newest
+	// newTorrentEvent in the pool is the one it has just parked)
+	var waits [2]chan error
+	e.hookStarted = func(i int) {
+		e.loop.mu.Lock()
+		defer e.loop.mu.Unlock()
+		for k := len(e.loop.pool) - 1; k >= 0; k-- {
+			if ne, ok := e.loop.pool[k].e.(newTorrentEvent); ok {
+				waits[i] = ne.errc
+				return
+			}
+		}
+	}
 	e.hookBefore = func(ev event) func() {
+		cachedBefore := e.arch.t.Complete()
+		// a caller is answered by the event that takes its channel out of the
+		// tracked control's waiter list (or never puts it there)
+		waiting := func(ch chan error) bool {
+			if c := e.ctrl(); c != nil {
+				for _, x := range c.errors {
+					if x == ch {
+						return true
+					}
+				}
+			}
+			return false
+		}
+		var waitedBefore [2]bool
+		for i := range waits {
+			waitedBefore[i] = waits[i] != nil && waiting(waits[i])
+		}
+		own := -1
+		if ne, ok := ev.(newTorrentEvent); ok {
+			for i := range waits {
+				if waits[i] == ne.errc {
+					own = i
+				}
+			}
+		}
 		// window of FINDINGS.md: a completed torrent whose waiters have not been
 		// notified yet and whose completion notice is still waiting to be received
 		c0 := e.ctrl()
@@ -83,6 +121,15 @@ func (e *verif17Env) wbHooks() {
 				}
 			}
 			e.noteNotices()
+			// which callers were answered by this event, and was the blob in
+			// the cache then (before the event, or after it: a manual removal
+			// answers first and deletes afterwards)
+			for i := range waits {
+				if waits[i] != nil && !e.answerKnown[i] && (waitedBefore[i] || own == i) && !waiting(waits[i]) {
+					e.answerKnown[i] = true
+					e.answerCached[i] = cachedBefore || e.arch.t.Complete()
+				}
+			}
 		}
 	}
 }
